@@ -980,6 +980,46 @@ def _generate_validator_expression_for(field_ir, ir):
     return result
 
 
+def _render_write_range_check(field_ir, logical_type):
+    """Renders a check that a value to be written is in the field's range.
+
+    The inverse transform of a virtual field is computed in a C++ type that was
+    sized for values the field can actually have.  A value outside of the
+    field's inferred range can never be written, and must be rejected before
+    the transform is evaluated, because evaluating it could overflow.
+    """
+    if field_ir.read_transform.type.which_type != "integer":
+        return ""
+    bounds = field_ir.read_transform.type.integer
+    type_limits = {
+        "::std::int32_t": (-(2**31), 2**31 - 1),
+        "::std::uint32_t": (0, 2**32 - 1),
+        "::std::int64_t": (-(2**63), 2**63 - 1),
+        "::std::uint64_t": (0, 2**64 - 1),
+    }
+    if logical_type not in type_limits:
+        return ""
+    type_minimum, type_maximum = type_limits[logical_type]
+    checks = []
+    # Only compare against bounds strictly inside the C++ type's range, so that
+    # compilers do not warn about comparisons that are always false.
+    if int(bounds.minimum_value) > type_minimum:
+        checks.append(
+            "emboss_reserved_local_value < static_cast</**/{}>({})".format(
+                logical_type, _render_integer(int(bounds.minimum_value))
+            )
+        )
+    if int(bounds.maximum_value) < type_maximum:
+        checks.append(
+            "emboss_reserved_local_value > static_cast</**/{}>({})".format(
+                logical_type, _render_integer(int(bounds.maximum_value))
+            )
+        )
+    if not checks:
+        return ""
+    return "      if ({}) return false;\n".format(" ||\n          ".join(checks))
+
+
 def _generate_structure_virtual_field_methods(enclosing_type_name, field_ir, ir):
     """Generates C++ code for methods for a single virtual field.
 
@@ -1039,6 +1079,7 @@ def _generate_structure_virtual_field_methods(enclosing_type_name, field_ir, ir)
             logical_type=logical_type,
             destination=destination,
             transform=transform,
+            range_check=_render_write_range_check(field_ir, logical_type),
         )
     else:
         write_methods = ""
